@@ -946,7 +946,9 @@ fn build_net(run: u64, cfg: &Value, log: &Log) -> Net {
 			"mon_id_a": latest(&persisters[i]), "mon_id_b": latest(&persisters[i + 1]),
 		}));
 	}
-	net.ev(json!({"ev":"open","nodes":n,"chans":chans_desc}));
+	let policy: Vec<Value> = (0..n).map(|i| { let c = net.nodes[i].node.get_current_config().channel_config;
+		json!({"fee_base": c.forwarding_fee_base_msat, "fee_ppm": c.forwarding_fee_proportional_millionths, "cltv_delta": c.cltv_expiry_delta}) }).collect();
+	net.ev(json!({"ev":"open","nodes":n,"chans":chans_desc,"policy":policy}));
 	net
 }
 
